@@ -36,7 +36,7 @@ PROPS = {
                 "complement, decode/re-encode), a digit-pattern family (prefix/fill/suffix, extremes, palindromes) "
                 "for every larger k up to 31, and strand symmetry of the iterator on every string over {A,C,G,T,N} "
                 "up to the stated length x k 1..=5 plus structured inputs for k 6..=31; every case is distinct; "
-                "non-trivial = code checks (all) and streams with at least one window position One record of 2^32 + 1000 unambiguous bases: number of pairs, both ends, (code, reverse complement) on a stride.",
+                "non-trivial = code checks (all) and streams with at least one window position One record of 2^32 + 1000 unambiguous bases: number of pairs, both ends, (code, reverse complement) on a stride. The first calls of a fresh process made by 8 threads released together (decoding, reverse complement, index maps of different k, both iterators against the model): 60 fresh processes, thorough 600 (free-running).",
         "assumptions": COMMON_ASSUME + ["codes for k above the exhaustive bound are covered by the stated family only"],
     },
     "C09": {
@@ -91,7 +91,7 @@ PROPS.update({
                 "newline) in plain, single-member gzip (compressed and stored), gzip with a member boundary at every "
                 "record boundary, with an empty member, and at every byte offset of the first 40 bytes; long records "
                 "at buffer edges (8 KiB, 32 KiB, 64 KiB, 70 000); each file read through the iterator and seq_stats "
-                "and compared with the generating list. Non-trivial = file with at least one record.",
+                "and compared with the generating list. Non-trivial = file with at least one record. Ids in sequencer / pipeline spellings (mate suffixes, pipes), id-less headers with a description, ids with 2-, 3- and 4-byte characters across the 4 Ki..128 Ki offsets of the text and across a gzip member boundary; mismatching .fai/.gzi side-cars next to every other input.",
         "assumptions": COMMON_ASSUME + ["gzip members are produced by flate2 (compressed level 6 and stored level 0)"],
     },
     "C08": {
@@ -104,7 +104,7 @@ PROPS.update({
                 "(threads, memory) settings with the same or a different counting input; high-multiplicity and "
                 "200-record inputs; compute_coverages on harness-written tables. Oracle: model histogram, one row "
                 "per record in order. Non-trivial = record with at least one window position."
-                " Batch path under the controlled scheduler: every order in which the items of a batch of 2 or 3 records run (4 records: up to the stated preemption bound), one batch and several batches, each item being a task whose shim lock / atomic operations are scheduling points; oracle per schedule: the bytes of the one-thread run. Usable CPUs as an environment dimension: the command line under `taskset` with 1, 2, 3 and 6 usable CPUs (thorough: every count below the machine's) x -t in (0,1,2,3,4,8,16) x 3, 16 and 37 records; oracle: the result of the unrestricted one-thread run.",
+                " Batch path under the controlled scheduler: every order in which the items of a batch of 2 or 3 records run (4 records: up to the stated preemption bound), one batch and several batches, each item being a task whose shim lock / atomic operations are scheduling points; oracle per schedule: the bytes of the one-thread run. Usable CPUs as an environment dimension: the command line under `taskset` with 1, 2, 3 and 6 usable CPUs (thorough: every count below the machine's) x -t in (0,1,2,3,4,8,16) x 3, 16 and 37 records; oracle: the result of the unrestricted one-thread run. Large k (22, 25, 31): windows along a single-base stretch a little shorter than k, with different multiplicities.",
         "assumptions": COMMON_ASSUME + ["worker threads of the counting step run free in this check (their interleavings are decided in C07)",
                                         "'flush every few records' cannot be reached: the batch threshold is a whole number of GiB"],
     },
@@ -117,18 +117,18 @@ PROPS.update({
                 "{A,C,G,T,N,x} and every byte value outside the ten letters in short contexts must be refused; long "
                 "periodic inputs for prefix determinism and sub-square containment; the file path on 7 record sets "
                 "x threads 1..=16 x 3 batch limits. Non-trivial = non-empty input."
-                " Batch path under the controlled scheduler: every order in which the items of a batch of 2 or 3 records run (4 records: up to the stated preemption bound), one batch and several batches, each item being a task whose shim lock / atomic operations are scheduling points; oracle per schedule: the bytes of the one-thread run. Usable CPUs as an environment dimension: the command line under `taskset` with 1, 2, 3 and 6 usable CPUs (thorough: every count below the machine's) x -t in (0,1,2,3,4,8,16) x 3, 16 and 37 records; oracle: the result of the unrestricted one-thread run. Output as a FIFO with a slow reader (8 threads, 9 MB of long lines; free-running, one execution per kind, thorough three): same canonical content as the one-thread run into a regular file.",
+                " Batch path under the controlled scheduler: every order in which the items of a batch of 2 or 3 records run (4 records: up to the stated preemption bound), one batch and several batches, each item being a task whose shim lock / atomic operations are scheduling points; oracle per schedule: the bytes of the one-thread run. Usable CPUs as an environment dimension: the command line under `taskset` with 1, 2, 3 and 6 usable CPUs (thorough: every count below the machine's) x -t in (0,1,2,3,4,8,16) x 3, 16 and 37 records; oracle: the result of the unrestricted one-thread run. Output as a FIFO with a slow reader (8 threads, 9 MB of long lines; free-running, one execution per kind, thorough three): same canonical content as the one-thread run into a regular file. FIFO input.",
         "assumptions": COMMON_ASSUME + ["batches with more items than pool threads run free (which items start first is then rayon's choice); tasks that do not announce themselves (a bare scope.spawn) are not scheduled"],
     },
     "C12": {
         "technique": "bounded-exhaustive enumeration of inputs and configurations against a reference model, plus stateless controlled-scheduler exploration of the items of the data-parallel batch path",
         "needs": ["harness", "cli"],
-        "parts": [ktmc("C12"), ktmc("C12batch"), lambda tier: __import__("hist").c_env_cpus(tier, ['kcgr']), lambda tier: __import__("hist").c_sink_fifo(tier, ['kcgr']), lambda tier: __import__("hist").c_source_fifo(tier, ['kcgr']), lambda tier: __import__("hist").c12_huge_output(tier)],
+        "parts": [ktmc("C12"), ktmc("C12batch"), lambda tier: __import__("hist").c_env_cpus(tier, ['kcgr']), lambda tier: __import__("hist").c_sink_fifo(tier, ['kcgr']), lambda tier: __import__("hist").c_source_fifo(tier, ['kcgr']), lambda tier: __import__("hist").c12_huge_output(tier), lambda tier: __import__("hist").c_giant_record_in_the_middle(tier, ["kcgr"])],
         "rule": "k 1..=7 x 5 square sizes x norm/raw: every string over {A,C,G,T,N} up to the stated length (k<=3) or "
                 "a structured family (k 4..=7): one triple per canonical column in rank order, coordinates bit-exact "
                 "= chaos-game end point of the column's k-mer text, frequency identical to the oligo vector and to "
                 "the model; file path x threads x batch limits. Non-trivial = record at least k long."
-                " Batch path under the controlled scheduler: every order in which the items of a batch of 2 or 3 records run (4 records: up to the stated preemption bound), one batch and several batches, each item being a task whose shim lock / atomic operations are scheduling points; oracle per schedule: the bytes of the one-thread run. Usable CPUs as an environment dimension: the command line under `taskset` with 1, 2, 3 and 6 usable CPUs (thorough: every count below the machine's) x -t in (0,1,2,3,4,8,16) x 3, 16 and 37 records; oracle: the result of the unrestricted one-thread run. Output as a FIFO with a slow reader (8 threads, 9 MB of long lines; free-running, one execution per kind, thorough three): same canonical content as the one-thread run into a regular file. Thorough tier: one batch of 2.3 GB of text (10 400 reads, k = 7) equals the outputs of its two halves.",
+                " Batch path under the controlled scheduler: every order in which the items of a batch of 2 or 3 records run (4 records: up to the stated preemption bound), one batch and several batches, each item being a task whose shim lock / atomic operations are scheduling points; oracle per schedule: the bytes of the one-thread run. Usable CPUs as an environment dimension: the command line under `taskset` with 1, 2, 3 and 6 usable CPUs (thorough: every count below the machine's) x -t in (0,1,2,3,4,8,16) x 3, 16 and 37 records; oracle: the result of the unrestricted one-thread run. Output as a FIFO with a slow reader (8 threads, 9 MB of long lines; free-running, one execution per kind, thorough three): same canonical content as the one-thread run into a regular file. Thorough tier: one batch of 2.3 GB of text (10 400 reads, k = 7) equals the outputs of its two halves. One record of 2^28 + 5 bases between two short ones on the command line: rows in input order. FIFO input.",
         "assumptions": COMMON_ASSUME + ["batches with more items than pool threads run free (which items start first is then rayon's choice); tasks that do not announce themselves (a bare scope.spawn) are not scheduled"],
     },
 })
@@ -169,7 +169,7 @@ PROPS.update({
         "engine": "ktmc-sched",
         "technique": "stateless controlled-scheduler exploration of worker interleavings (iterative preemption bounding) plus exhaustive configuration lattice",
         "needs": ["harness", "cli"],
-        "parts": [ktmc("C05sched"), ktmc("C05cfg"), ktmc("C04batch"), lambda tier: __import__("hist").c_env_threads(tier, ["oligo"]), lambda tier: __import__("hist").c_env_cpus(tier, ['oligo']), lambda tier: __import__("hist").c_sink_fifo(tier, ['oligo-c']), lambda tier: __import__("hist").c_source_fifo(tier, ['oligo-c'])],
+        "parts": [ktmc("C05sched"), ktmc("C05cfg"), ktmc("C04batch"), lambda tier: __import__("hist").c_env_threads(tier, ["oligo"]), lambda tier: __import__("hist").c_env_cpus(tier, ['oligo']), lambda tier: __import__("hist").c_sink_fifo(tier, ['oligo-c']), lambda tier: __import__("hist").c_source_fifo(tier, ['oligo-c']), lambda tier: __import__("hist").c_giant_record_in_the_middle(tier, ["oligo-c"])],
         "rule": "schedules: depth-first exploration by re-execution of every interleaving of the real mmap worker loop "
                 "(N=2 and the small N=3 case unbounded, larger N=3 and N=4 up to the stated preemption bound) over 2-6 "
                 "records with pairwise different rows, at the default and at small batch-memory limits; oracle per schedule: output bytes = rows in input order; observed record->worker assignments "
@@ -177,21 +177,21 @@ PROPS.update({
                 "short ones) x threads 1..=16 x batch limits x both writers x 7 containers (x header x "
                 "delimiters), and every record count 0..=40, 63..65, 127, 129 x threads 1..=8, 16: row i = record i. "
                 "states = branching decision points + terminal states, transitions = scheduling steps executed, "
-                "traces = complete schedules executed on the real code. Every schedule/configuration is distinct. Usable CPUs as an environment dimension: the command line under `taskset` with 1, 2, 3 and 6 usable CPUs (thorough: every count below the machine's) x -t in (0,1,2,3,4,8,16) x 3, 16 and 37 records; oracle: the result of the unrestricted one-thread run. More than 2^16 records (one longer record, then 65 600 short ones) with 2 workers (thorough: also 3): every way of preempting the workers within the first 16 (thorough 40) decisions at bound 1, each continued by default, so that a preempted worker resumes after the others have taken every remaining record. Output as a FIFO with a slow reader (8 threads, 9 MB of long lines; free-running, one execution per kind, thorough three): same canonical content as the one-thread run into a regular file. Byte identity: the first configuration of a (record set, k, header, delimiter) seen by a process is the byte reference of all later ones (writers, threads, limits, containers); record sets with decimal-tie frequencies and with 41 MB of text in one batch; delimiters with multi-byte characters; mismatching .fai/.gzi side-cars next to every input.",
+                "traces = complete schedules executed on the real code. Every schedule/configuration is distinct. Usable CPUs as an environment dimension: the command line under `taskset` with 1, 2, 3 and 6 usable CPUs (thorough: every count below the machine's) x -t in (0,1,2,3,4,8,16) x 3, 16 and 37 records; oracle: the result of the unrestricted one-thread run. More than 2^16 records (one longer record, then 65 600 short ones) with 2 workers (thorough: also 3): every way of preempting the workers within the first 16 (thorough 40) decisions at bound 1, each continued by default, so that a preempted worker resumes after the others have taken every remaining record. Output as a FIFO with a slow reader (8 threads, 9 MB of long lines; free-running, one execution per kind, thorough three): same canonical content as the one-thread run into a regular file. Byte identity: the first configuration of a (record set, k, header, delimiter) seen by a process is the byte reference of all later ones (writers, threads, limits, containers); record sets with decimal-tie frequencies and with 41 MB of text in one batch; delimiters with multi-byte characters; mismatching .fai/.gzi side-cars next to every input. One record of 2^28 + 5 bases between two short ones through the batched writer on the command line: rows in input order. FIFO inputs for the batched writer.",
         "states": SCHED_STATES,
         "assumptions": SCHED_ASSUME + ["batches with more items than pool threads run free (which items start first is then rayon's choice); tasks that do not announce themselves (a bare scope.spawn) are not scheduled"],
     },
     "C14": {
         "engine": "ktmc-sched",
         "technique": "write-log invariant checked on every explored worker interleaving and on an exhaustive configuration lattice; debug-assertion build as bounds monitor",
-        "parts": [ktmc("C14"), bounds_monitor("C08"), bounds_monitor("C04"), bounds_monitor("C12"), bounds_monitor("C07cfg")],
+        "parts": [ktmc("C14"), bounds_monitor("C08"), bounds_monitor("C04"), bounds_monitor("C12"), bounds_monitor("C07cfg"), lambda tier: __import__("hist").c_first_calls(tier)],
         "rule": "every write (offset, length, capacity) issued to the mapped file is logged (hook in MMWriter::write_at, "
                 "which refuses an out-of-range write before it happens) on every schedule of the C05 exploration "
                 "(with a 2-byte delimiter on the header cases) and on a lattice k x 6 delimiters of length 0,1,2,4 x "
                 "header x 0..=3 records x workers (1,2,3,16); invariant: in range, pairwise disjoint, union = whole "
                 "file, file size = header + records x row, no NUL byte. Unchecked indices: all enumerations of C04, "
                 "C07, C08, C12 run the /repo crates with debug assertions, where a violated get_unchecked "
-                "precondition aborts the shard and is reported with the journalled case.",
+                "precondition aborts the shard and is reported with the journalled case. Index maps of different k built by 8 threads at once as the first calls of a fresh process (60 processes, free-running); half of the lattice cases whose records all have bases arrive as FASTQ wrapped at 3.",
         "states": SCHED_STATES,
         "assumptions": SCHED_ASSUME,
     },
@@ -210,7 +210,7 @@ PROPS.update({
                 "configurations: every single record over {A,C,G,T,N}^(<=4) and every pair over two alphabets holding "
                 "both strands (thorough: more alphabets and triples) x k x 8 (threads, ceiling) settings (1 to 14 "
                 "chunks, 1 to 700 partitions, one to 16 workers), ACGT and numeric rendering, repetitive inputs for "
-                "k 15, 31. Usable CPUs as an environment dimension: the command line under `taskset` with 1, 2, 3 and 6 usable CPUs (thorough: every count below the machine's) x -t in (0,1,2,3,4,8,16) x 3, 16 and 37 records; oracle: the result of the unrestricted one-thread run. More than 2^16 records (one longer record, then 65 600 short ones) with 2 workers (thorough: also 3): every way of preempting the workers within the first 16 (thorough 40) decisions at bound 1, each continued by default, so that a preempted worker resumes after the others have taken every remaining record. Every number of distinct 21-mers 1..=1500 (thorough 50 000) in one record, both renderings. Equal records 2^8 and 2^16 (one less, one more) records apart.",
+                "k 15, 31. Usable CPUs as an environment dimension: the command line under `taskset` with 1, 2, 3 and 6 usable CPUs (thorough: every count below the machine's) x -t in (0,1,2,3,4,8,16) x 3, 16 and 37 records; oracle: the result of the unrestricted one-thread run. More than 2^16 records (one longer record, then 65 600 short ones) with 2 workers (thorough: also 3): every way of preempting the workers within the first 16 (thorough 40) decisions at bound 1, each continued by default, so that a preempted worker resumes after the others have taken every remaining record. Every number of distinct 21-mers 1..=1500 (thorough 50 000) in one record, both renderings. Equal records 2^8 and 2^16 (one less, one more) records apart. Open-file limits 24..1024 (RLIMIT_NOFILE) against hundreds of chunk files: status 0 implies the exact table. One case with a grid of about 10^5 temporary files.",
         "states": SCHED_STATES,
         "assumptions": SCHED_ASSUME + ["merge scheduling is explored when chunks <= pool threads (otherwise which chunk tasks start first is rayon's choice and the phase runs free)",
                                        "configuration runs use free-running threads"],
@@ -225,7 +225,7 @@ PROPS.update({
                 "s2m = one line per record with the model's runs (multiset of lines), m2s = exact inversion of the "
                 "model's s2m (multiset per minimiser), w=0 means the whole record. configurations: all strings over "
                 "{A,C,G,T,N} up to length 5 (thorough 6) as one file x m 1..=3 x w in (0,m+1,m+2) x threads "
-                "(1,2,4,16), and every list of 2 (thorough 3) short records x 5 settings. Usable CPUs as an environment dimension: the command line under `taskset` with 1, 2, 3 and 6 usable CPUs (thorough: every count below the machine's) x -t in (0,1,2,3,4,8,16) x 3, 16 and 37 records; oracle: the result of the unrestricted one-thread run. More than 2^16 records (one longer record, then 65 600 short ones) with 2 workers (thorough: also 3): every way of preempting the workers within the first 16 (thorough 40) decisions, each continued by default, so that a preempted worker resumes after the others have taken every remaining record. Output as a FIFO with a slow reader (8 threads, 9 MB of long lines; free-running, one execution per kind, thorough three): same canonical content as the one-thread run into a regular file.",
+                "(1,2,4,16), and every list of 2 (thorough 3) short records x 5 settings. Usable CPUs as an environment dimension: the command line under `taskset` with 1, 2, 3 and 6 usable CPUs (thorough: every count below the machine's) x -t in (0,1,2,3,4,8,16) x 3, 16 and 37 records; oracle: the result of the unrestricted one-thread run. More than 2^16 records (one longer record, then 65 600 short ones) with 2 workers (thorough: also 3): every way of preempting the workers within the first 16 (thorough 40) decisions, each continued by default, so that a preempted worker resumes after the others have taken every remaining record. Output as a FIFO with a slow reader (8 threads, 9 MB of long lines; free-running, one execution per kind, thorough three): same canonical content as the one-thread run into a regular file. FIFO inputs (both listings, w = 0 too).",
         "states": SCHED_STATES,
         "assumptions": SCHED_ASSUME + ["configuration runs use free-running threads"],
     },
@@ -305,7 +305,7 @@ PROPS.update({
                 "temp files of larger chunk x partition grids); search from the empty location and from a location "
                 "pre-filled with longer garbage, to a fixpoint or depth 3 (thorough 4; the counter/coverage directory one level less); invariant on every transition: "
                 "documented result files = the same run alone in a fresh location (bytes for ordered outputs, line "
-                "multisets for unordered ones); the same run twice is part of every state's fan-out. File identity across file systems (private mount namespace, two fresh tmpfs mounts): for 8 subcommand variants the stale output lies on another file system with the input's inode number (the -o path, and the result file inside a directory output), on another file system with another number, or on the input's own; oracle: same canonical content as a fresh location. Interrupted earlier runs: a 300-record run cut off by RLIMIT_FSIZE = L for every L of a ladder 0..1 MiB (thorough 64 B..4 MiB, quarter-octave steps), then a complete 3-record run into the same location, 9 command variants; oracle: the documented result files of a fresh location.",
+                "multisets for unordered ones); the same run twice is part of every state's fan-out. File identity across file systems (private mount namespace, two fresh tmpfs mounts): for 8 subcommand variants the stale output lies on another file system with the input's inode number (the -o path, and the result file inside a directory output), on another file system with another number, or on the input's own; oracle: same canonical content as a fresh location. Interrupted earlier runs: a 300-record run cut off by RLIMIT_FSIZE = L for every L of a ladder 0..1 MiB (thorough 64 B..4 MiB, quarter-octave steps), then a complete 3-record run into the same location, 9 command variants; oracle: the documented result files of a fresh location. Histories over closely related inputs (ids exchanged, one base substituted, records exchanged, case changed, one record fewer at the same file size), in both orders and with the input regenerated in place under one path, 9 commands.",
         "states": (["hist.states"], ["hist.transitions"], ["hist.traces"]),
         "assumptions": HIST_ASSUME + ["state canonicalisation hashes unordered files as sorted line multisets: later runs truncate or rewrite them before reading, so line order cannot influence the future"],
     },
